@@ -465,13 +465,21 @@ theorem step_agree (srv : Option Impl.Doc) (ed ed' : Option Spec.Doc) (e : Impl.
       subst hstep
       exact hag
   | watchedDeleted =>
+    simp [encodeEvent, Spec.step] at hstep
+    subst hstep
     cases ed with
-    | some doc => simp [encodeEvent, Spec.lfEvent] at hg
+    | some doc =>
+      -- the `is_open` guard of the DELETED branch: the buffer outlives its file
+      obtain ⟨d, hsrv, h1, h2, hopen, h3⟩ := hag
+      subst hsrv
+      exact ⟨d, by simp [Impl.step, hopen], h1, h2, hopen, h3⟩
     | none =>
-      simp [encodeEvent, Spec.step] at hstep
-      subst hstep
       intro d hd
-      simp [Impl.step] at hd
+      cases srv with
+      | none => simp [Impl.step] at hd
+      | some d0 =>
+        have hclosed := hag d0 rfl
+        simp [Impl.step, hclosed] at hd
   | watchedChanged disk =>
     simp [encodeEvent, Spec.step] at hstep
     subst hstep
@@ -538,7 +546,14 @@ theorem step_analysed (srv : Option Impl.Doc) (e : Impl.Event)
     | none => simp [Impl.step] at hd
     | some d0 => simp [Impl.step] at hd; subst hd; exact h d0 rfl
   | didSave => exact h d hd
-  | watchedDeleted => simp [Impl.step] at hd
+  | watchedDeleted =>
+    cases srv with
+    | none => simp [Impl.step] at hd
+    | some d0 =>
+      simp only [Impl.step] at hd
+      split at hd
+      · cases hd; exact h _ rfl
+      · cases hd
   | watchedChanged disk =>
     cases disk with
     | none => exact h d hd
